@@ -66,6 +66,10 @@ def detrend_case(rec, seedt, tier):
         x = (rng.standard_normal(N) + 10 * t).astype(np.float32)
     else:
         x = 1e6 + rng.standard_normal(N)
+    if kind not in ("int", "bool", "float32") and rng.random() < 0.25:
+        # the same series in another unit (exact rescaling; every tolerance below is relative)
+        x = np.asarray(x, dtype=np.float64) * 2.0 ** int(rng.choice([-300, -100, -30, 30, 100, 300]))
+        rec.count("detrend_cases_in_rescaled_units")
     desc = {"kind": "detrend", "seed": list(seedt), "p": p, "N": N, "series": kind, "tier": tier}
     rec.case(desc, nontrivial=True)
     xin = np.array(x, copy=True)
@@ -234,15 +238,28 @@ def rms_case(rec, seedt):
     f = grid(rng, str(rng.choice(["linear", "log", "plan", "random", "notched", "zoomed",
                                   "symmetric"])), n)
     n = len(f)
-    akind = str(rng.choice(["flat", "power", "random", "zeros"]))
+    akind = str(rng.choice(["flat", "power", "random", "zeros", "steep-red", "steep-blue"]))
     if akind == "flat":
         asd = np.full(n, 2.5)
+    elif akind in ("steep-red", "steep-blue"):
+        # several decades of dynamic range across the grid (the band's power is a tiny or a
+        # dominant part of the total)
+        ex = float(rng.choice([2.0, 3.0, 4.0])) * (-1 if akind == "steep-red" else 1)
+        with np.errstate(all="ignore"):
+            asd = (np.asarray(f) / (float(f[len(f) // 2]) or 1.0) + 1e-6) ** ex
+            span = float(f[-1] - f[0]) if len(f) > 1 else 1.0
+            m_ = np.float64(np.max(asd)) if len(asd) else np.float64(0)
+            if not (np.all(np.isfinite(asd)) and np.isfinite(span) and m_ * m_ * span < 1e200):
+                akind, asd = "power", (f + 1e-3) ** -0.7   # dynamic range beyond float64
     elif akind == "power":
         asd = (f + 1e-3) ** -0.7
     elif akind == "random":
         asd = rng.uniform(0, 3, size=n)
     else:
         asd = rng.uniform(0, 3, size=n) * (rng.random(n) < 0.5)
+    if rng.random() < 0.25 and float(np.max(asd)) < 1e50:
+        asd = asd * 2.0 ** int(rng.choice([-150, -60, -20, 20, 60, 150]))   # other units
+        rec.count("rms_cases_in_rescaled_units")
     bkind = str(rng.choice(["inside", "gridpoints", "straddle-low", "straddle-high", "outside",
                             "degenerate", "none"]))
     lo, hi = float(f[0]), float(f[-1])
